@@ -75,7 +75,19 @@ def run_genesis(ctx, prop, tier, seed, binp, workdir):
     obs, gen, dist, ncases = genesis_obs(ctx, binp, seed, tier, workdir)
     reobs = os.path.join(workdir, "reobs.ndjson")
     n, depth = (40, 40) if tier == "quick" else (600, 120)
-    harness(ctx, binp, ["reimport", "-n", str(n), "-depth", str(depth), "-out", reobs], seed)
+    # ... and the states at the end of TLC-enumerated paths with simulated, failing and read-back transactions
+    # (what is exported must be what is STORED, not what a discarded branch left in memory)
+    dcfg = "MC_DiscardPaths.cfg" if tier == "quick" else "MC_DiscardPaths_T.cfg"
+    doutp, drc, dscratch = ctx["run_tlc"]("MC_DiscardPaths", dcfg, workdir, 1500, os.cpu_count() or 8)
+    dpaths = os.path.join(workdir, "discardpaths.ndjson")
+    dtext, nd = ctx["split"](doutp, dpaths)
+    shutil.rmtree(dscratch, ignore_errors=True)
+    if drc != 0 or "No error has been found" not in dtext or nd == 0:
+        raise ctx["Machinery"]("TLC did not verify MC_DiscardPaths:\n" + dtext[-2000:])
+    lines = open(dpaths).read().splitlines()
+    step = max(1, len(lines) // (4000 if tier == "quick" else 20000))
+    open(dpaths, "w").write("\n".join(lines[::step]) + "\n")
+    harness(ctx, binp, ["reimport", "-n", str(n), "-depth", str(depth), "-in", dpaths, "-out", reobs], seed)
     allp = os.path.join(workdir, "gall.ndjson")
     recs = {}
     with open(allp, "w") as fo:
@@ -98,6 +110,8 @@ def run_genesis(ctx, prop, tier, seed, binp, workdir):
         else:
             payload = dict(special="reimport", signature=sig, history=r["history"], step=r["step"],
                            first_observed={k: v for k, v in r["obs"].items() if k not in ("state", "reimported")})
+            if "given" in r:
+                payload["given"] = r["given"]
         rp = write_replay(ctx, sig.split(":")[0], seed, payload)
         violations.append(dict(signature=sig, replay=rp, confirmed=bool(replay(json.load(open(rp)), binp, workdir, ctx))))
     nre = sum(1 for r in recs.values() if r["kind"] == "reimport")
@@ -117,7 +131,12 @@ def replay_genesis(rp, binp, workdir, ctx):
         harness(ctx, binp, ["genesis", "-in", cases, "-out", obs], rp["seed"])
     else:
         obs0 = os.path.join(workdir, "rro0.ndjson")
-        harness(ctx, binp, ["reimport", "-first", str(rp["history"]), "-n", "1", "-depth", str(rp["step"]), "-out", obs0], rp["seed"])
+        if "given" in rp:
+            gin = os.path.join(workdir, "rrgiven.ndjson")
+            open(gin, "w").write(json.dumps(rp["given"]) + "\n")
+            harness(ctx, binp, ["reimport", "-n", "0", "-in", gin, "-out", obs0], rp["seed"])
+        else:
+            harness(ctx, binp, ["reimport", "-first", str(rp["history"]), "-n", "1", "-depth", str(rp["step"]), "-out", obs0], rp["seed"])
         last = open(obs0).read().splitlines()[-1]
         obs = os.path.join(workdir, "rro.ndjson")
         open(obs, "w").write(last + "\n")
